@@ -892,15 +892,16 @@ class Rewriter:
             mlog.error('Unknown target', mlog.bold(cmd['target']), *self.on_error())
             return self.handle_error()
 
-        # Make source paths relative to the current subdir
+        # Make source paths relative to the source root: that is how
+        # add_src_or_extra() and rm_src_or_extra() interpret them
         def rel_source(src: str) -> str:
-            subdir = os.path.abspath(os.path.join(self.sourcedir, target.subdir))
+            source_root = os.path.abspath(self.sourcedir)
             if os.path.isabs(src):
-                return os.path.relpath(src, subdir)
+                return os.path.relpath(src, source_root)
             elif not os.path.exists(src):
                 return src # Trust the user when the source doesn't exist
-            # Make sure that the path is relative to the subdir
-            return os.path.relpath(os.path.abspath(src), subdir)
+            # Make sure that the path is relative to the source root
+            return os.path.relpath(os.path.abspath(src), source_root)
 
         if target is not None:
             cmd['sources'] = [rel_source(x) for x in cmd['sources']]
